@@ -105,16 +105,22 @@ def process_nodes_recursive(
     variables=None,
     mode=1,
     premium=False,
+    parsed_declarations=None,
 ):
     if variables is None:
         variables = {}
+    if parsed_declarations is None:
+        parsed_declarations = {}
 
     for node in node_list:
         if isinstance(node, QualifiedRule):
-            # Process declarations
-            declarations = tinycss2.parse_declaration_list(
-                node.content, skip_whitespace=False, skip_comments=False
-            )
+            # Process declarations (reuse the list the caller already parsed for
+            # this rule, so edits are not lost when the caller re-serializes it)
+            declarations = parsed_declarations.get(id(node))
+            if declarations is None:
+                declarations = tinycss2.parse_declaration_list(
+                    node.content, skip_whitespace=False, skip_comments=False
+                )
             valid_decls = [d for d in declarations if isinstance(d, Declaration)]
 
             modified = False
@@ -263,6 +269,7 @@ def process_nodes_recursive(
                     variables,
                     mode=mode,
                     premium=premium,
+                    parsed_declarations=parsed_declarations,
                 )
 
                 nested_css = tinycss2.serialize(nested_rules)
@@ -353,6 +360,7 @@ def main(path, default_bg, mode, premium):
                 variables,
                 mode=mode,
                 premium=premium,
+                parsed_declarations=rule_declarations_map,
             )
 
             # Post-process: Update content of rules that had variables modified
